@@ -1,1 +1,156 @@
-pub fn placeholder() {}
+//! PRNG, Coq term printers and the common driver of every family binary.
+//!
+//! Every family binary is invoked as
+//!   <bin> gen    --seed N --tier quick|thorough --out DIR
+//!   <bin> replay --case FILE --out DIR
+//! and writes DIR/cases.jsonl (one JSON object per case: class, input, impl
+//! observation), DIR/cases.coq (one Coq term per line, same order) and
+//! DIR/stats.json (measured input distribution).
+
+use std::collections::BTreeMap;
+use std::fmt::Write as _;
+use std::io::Write as _;
+use serde_json::{json, Value};
+
+//------------ SplitMix64 ----------------------------------------------------
+
+#[derive(Clone, Debug)]
+pub struct Rng(pub u64);
+
+impl Rng {
+    pub fn new(seed: u64) -> Self { Rng(seed ^ 0x9E37_79B9_7F4A_7C15) }
+    pub fn next(&mut self) -> u64 {
+        self.0 = self.0.wrapping_add(0x9E37_79B9_7F4A_7C15);
+        let mut z = self.0;
+        z = (z ^ (z >> 30)).wrapping_mul(0xBF58_476D_1CE4_E5B9);
+        z = (z ^ (z >> 27)).wrapping_mul(0x94D0_49BB_1331_11EB);
+        z ^ (z >> 31)
+    }
+    /// Uniform in 0..n (n > 0).
+    pub fn below(&mut self, n: u64) -> u64 { self.next() % n }
+    pub fn range(&mut self, lo: u64, hi: u64) -> u64 { lo + self.below(hi - lo + 1) }
+    pub fn chance(&mut self, num: u64, den: u64) -> bool { self.below(den) < num }
+    pub fn pick<'a, T>(&mut self, xs: &'a [T]) -> &'a T { &xs[self.below(xs.len() as u64) as usize] }
+    pub fn shuffle<T>(&mut self, xs: &mut [T]) {
+        for i in (1..xs.len()).rev() {
+            let j = self.below(i as u64 + 1) as usize;
+            xs.swap(i, j);
+        }
+    }
+    pub fn fork(&mut self) -> Rng { Rng(self.next()) }
+}
+
+//------------ Coq printers --------------------------------------------------
+
+pub fn coq_list<T>(xs: impl IntoIterator<Item = T>, f: impl Fn(T) -> String) -> String {
+    let mut s = String::from("[");
+    let mut first = true;
+    for x in xs {
+        if !first { s.push_str("; "); }
+        first = false;
+        s.push_str(&f(x));
+    }
+    s.push(']');
+    s
+}
+pub fn coq_nlist<T: std::fmt::Display>(xs: impl IntoIterator<Item = T>) -> String {
+    coq_list(xs, |x| x.to_string())
+}
+pub fn coq_bool(b: bool) -> &'static str { if b { "true" } else { "false" } }
+pub fn coq_opt(o: Option<String>) -> String {
+    match o { Some(s) => format!("(Some {})", s), None => "None".into() }
+}
+pub fn coq_bytes(b: &[u8]) -> String { coq_nlist(b.iter()) }
+/// Coq `string` literal (only for printable ASCII without '"').
+pub fn coq_string(s: &str) -> String {
+    let mut r = String::from("\"");
+    for c in s.chars() { if c == '"' { r.push_str("\"\""); } else { r.push(c); } }
+    r.push_str("\"%string");
+    r
+}
+
+//------------ Driver --------------------------------------------------------
+
+pub struct CaseOut {
+    /// Observation of the implementation (canonicalised, human readable).
+    pub obs: Value,
+    /// Coq term of the case type of the family's Check.v (input + observation).
+    pub coq: String,
+    /// Does the case reach a non-default branch (family-specific rule)?
+    pub nontrivial: bool,
+}
+
+pub struct Args {
+    pub mode: String,
+    pub seed: u64,
+    pub tier: String,
+    pub out: String,
+    pub case: Option<String>,
+}
+
+pub fn parse_args() -> Args {
+    let a: Vec<String> = std::env::args().collect();
+    let mut r = Args { mode: a.get(1).cloned().unwrap_or_default(), seed: 1, tier: "quick".into(), out: ".".into(), case: None };
+    let mut i = 2;
+    while i < a.len() {
+        match a[i].as_str() {
+            "--seed" => { r.seed = a[i + 1].parse().expect("seed"); i += 2 }
+            "--tier" => { r.tier = a[i + 1].clone(); i += 2 }
+            "--out" => { r.out = a[i + 1].clone(); i += 2 }
+            "--case" => { r.case = Some(a[i + 1].clone()); i += 2 }
+            x => panic!("unknown argument {}", x),
+        }
+    }
+    r
+}
+
+/// Runs a family: `gen` produces (class, input) pairs, `run` executes the
+/// implementation on one input.
+pub fn drive(
+    gen: impl Fn(&mut Rng, &str) -> Vec<(String, Value)>,
+    run: impl Fn(&Value) -> CaseOut,
+) {
+    let args = parse_args();
+    std::fs::create_dir_all(&args.out).unwrap();
+    let inputs: Vec<(String, Value)> = match args.mode.as_str() {
+        "gen" => { let mut rng = Rng::new(args.seed); gen(&mut rng, &args.tier) }
+        "replay" => {
+            let txt = std::fs::read_to_string(args.case.as_ref().expect("--case")).unwrap();
+            let v: Value = serde_json::from_str(&txt).unwrap();
+            // a replay file holds either one case or a list of cases under "cases"
+            match v.get("cases") {
+                Some(Value::Array(cs)) => cs.iter().map(|c| (
+                    c["class"].as_str().unwrap_or("replay").to_string(), c["input"].clone()
+                )).collect(),
+                _ => vec![(v["class"].as_str().unwrap_or("replay").to_string(), v["input"].clone())],
+            }
+        }
+        m => panic!("mode must be gen or replay, got {:?}", m),
+    };
+    let mut jl = std::io::BufWriter::new(std::fs::File::create(format!("{}/cases.jsonl", args.out)).unwrap());
+    let mut cq = std::io::BufWriter::new(std::fs::File::create(format!("{}/cases.coq", args.out)).unwrap());
+    let mut classes: BTreeMap<String, u64> = BTreeMap::new();
+    let mut distinct = std::collections::HashSet::new();
+    let mut nontrivial = 0u64;
+    for (class, input) in &inputs {
+        let out = run(input);
+        *classes.entry(class.clone()).or_default() += 1;
+        if out.nontrivial && distinct.insert(out.coq.clone()) { nontrivial += 1; }
+        writeln!(jl, "{}", json!({"class": class, "input": input, "impl": out.obs})).unwrap();
+        writeln!(cq, "{}", out.coq.replace('\n', " ")).unwrap();
+    }
+    let stats = json!({
+        "evaluations": inputs.len(),
+        "distinct_nontrivial": nontrivial,
+        "classes": classes,
+        "seed": args.seed,
+        "tier": args.tier,
+    });
+    std::fs::write(format!("{}/stats.json", args.out), serde_json::to_string_pretty(&stats).unwrap()).unwrap();
+}
+
+pub fn hex(b: &[u8]) -> String {
+    let mut s = String::new();
+    for x in b { write!(s, "{:02x}", x).unwrap(); }
+    s
+}
